@@ -16,7 +16,7 @@ EDITS = [
     'rename_table', 'move_schema', 'rename_column', 'rename_enum', 'retype_column', 'set_pk', 'set_default', 'set_note', 'set_alias',
     'flip_ref_kind', 'toggle_ref_inline', 'name_ref', 'add_column', 'add_index', 'add_enum_item', 'remove_index', 'rename_target_table',
     'rename_ref_column', 'rename_enum_item', 'unset_flags', 'retype_to_enum', 'set_table_note',
-    'm2m_inline_on', 'm2m_to_many_to_one', 'kind_to_m2m', 'add_twin_index', 'remove_last_index', 'retype_ref_column',
+    'm2m_inline_on', 'm2m_to_many_to_one', 'kind_to_m2m', 'add_twin_index', 'remove_last_index', 'retype_ref_column', 'assign_note_text',
 ]
 
 # independent record of what the edits intend for each reference: (kind, inline flag as last assigned)
@@ -118,6 +118,9 @@ def _apply(db, op, nm, step):
     elif op == 'remove_last_index':
         if t1.indexes:
             t1.delete_index(len(t1.indexes) - 1)
+    elif op == 'assign_note_text':
+        t1.note.text = 'first\n  \n\t\nlast ' + nm
+        t1.columns[2].note.text = 'col\n \nnote'
     elif op == 'retype_ref_column':
         t1.columns[0].type = 'bigint'
         t2.schema = 'store'
